@@ -5,7 +5,7 @@
     entry lists (tree level) and from abstract programs (macro level). *)
 From Coq Require Import Permutation.
 From DivanV Require Import Base.Res Model.Registry Model.Tree Model.Driver
-  Proofs.TreeBase Proofs.DriverExec Proofs.DriverC14 Proofs.TreeLeaves Proofs.Flat Proofs.Expand.
+  Proofs.TreeBase Proofs.DriverExec Proofs.DriverC14 Proofs.TreeLeaves Proofs.Flat Proofs.FlatBridge Proofs.Expand.
 Local Open Scope N_scope.
 
 (** The leaves of the tree are the registered entries — each exactly once, under
@@ -64,6 +64,24 @@ Theorem C12_order_independent : forall c benches groups benches' groups',
               (exec_forest c [] None (retain (c_filter c) (build_tree benches' groups'))).
 Proof. exact order_independent. Qed.
 Print Assumptions C12_order_independent.
+
+(** The property as promised: provided no generic function shares its key with
+    another group, with a module that holds benchmarks, or with a prefix of another
+    group's key ([no_name_clash]), what a run executes is, as a multiset, the flat
+    semantics — every entry under the display names and with the options of the
+    [#[divan::bench_group]] modules above it, a generic function's own entry
+    standing at its own key, nothing else. *)
+Theorem C12_flat_semantics : forall c benches groups,
+  no_name_clash benches groups ->
+  Permutation (exec_forest c [] None (retain (c_filter c) (build_tree benches groups)))
+              (flat_exec c benches groups).
+Proof. exact exec_flat. Qed.
+Print Assumptions C12_flat_semantics.
+
+Theorem C12_guard_satisfiable :
+  no_name_clash [w_bench_a] [w_mod_group] /\ ~ no_name_clash [w_bench_a] [w_mod_group; w_fn_group].
+Proof. exact no_name_clash_example. Qed.
+Print Assumptions C12_guard_satisfiable.
 
 (** Without that guard the property FAILS in divan (finding F8): a module and a
     generic function of the same name share one node; the bench_group's
